@@ -173,6 +173,18 @@ BraceExtent(o, p) ==
       ws == WordsIn(o, p, e)
   IN IF Braced(ws) THEN BraceExt(o, e, Opens(ws) - Closes(ws)) ELSE e
 
+\* Field widths as documented (@set properties line-width, indent / tab, instruction-width, comment-width-min of
+\* skool2asm; --line-width, InstructionWidth, CommentWidthMin of sna2skool).  A comment line is "; " + text.  An
+\* ASM instruction row is indent + instruction field + " ; " + comment, the field being as wide as the longest
+\* operation of the group if that exceeds instruction-width.  A skool instruction row is control character +
+\* 5-digit address + blank + instruction field + " ; " + comment, the field being as wide as the longest
+\* operation of the whole entry if that exceeds InstructionWidth.  The comment field never gets narrower than
+\* comment-width-min, even if the row then exceeds the line width.
+ParagraphWidth(width) == width - 2
+AsmCommentColumn(indent, iw, maxop) == indent + Max(iw, maxop) + 3
+SkoolCommentColumn(iw, maxop) == 10 + Max(iw, maxop)
+CommentWidth(width, column, cwmin) == Max(width - column, cwmin)
+
 \* The width rule for one line: `over' = the line is longer than the configured width; it is excused
 \* only if the wrappable part of the line is at most one unbreakable unit.
 LineOK(len, width, units, excusedOtherwise) == width = 0 \/ len <= width \/ units <= 1 \/ excusedOtherwise
